@@ -1,5 +1,5 @@
 """C17 — LKH re-sequencing, DBSCAN and k-medoids keep their contracts (plugin for tools/verif.py)."""
-import os, json, subprocess, itertools
+import os, re, json, subprocess, itertools
 from concurrent.futures import ThreadPoolExecutor
 import coqterm
 
@@ -266,6 +266,8 @@ def compare(c, impl, model):
         if 'panic' in impl:
             return 'implementation panicked: %s' % impl['panic']
         code, path = model
+        if impl.get('skipped'):
+            return None
         if impl.get('timeout'):
             if code == 1 and not is_symmetric(c['cost']):
                 return None      # asymmetric matrix: both sides keep "improving" for ever (outside the property's domain)
@@ -359,6 +361,8 @@ def is_symmetric(m):
 
 
 def lkh_oracle(c, impl):
+    if impl.get('skipped'):
+        return []       # the harness stops running the search after several timeouts (it cannot kill the threads)
     if 'panic' in impl:
         return [{'class': 'lkh-panic', 'what': 'lkh_optimize panicked: ' + impl['panic']}]
     if impl.get('timeout') and not is_symmetric(c['cost']):
@@ -429,7 +433,8 @@ _SEEN = []   # (case, impl) pairs of this run, for the Coq-side checkers in extr
 
 
 def oracle(c, impl):
-    _SEEN.append((c, impl))
+    if not re.match(r'^s\d+$', str(c.get('id', ''))):      # shrink candidates are not part of the campaign
+        _SEEN.append((c, impl))
     op = c['op']
     if op == 'dbscan':
         return dbscan_oracle(c, impl)
@@ -484,7 +489,7 @@ def checker_term(c, impl):
     if c['op'] == 'dbscan':
         return 'check_dbscan %s %d%%nat %s %s' % (nll(c['nbr']), c['minp'], nl(c['pts']), nll(impl['clusters']))
     if c['op'] == 'lkh':
-        if impl.get('timeout') or len(impl['paths']) != 1 or len(set(c['path'])) != len(c['path']) or not is_symmetric(c['cost']):
+        if impl.get('timeout') or impl.get('skipped') or len(impl['paths']) != 1 or len(set(c['path'])) != len(c['path']) or not is_symmetric(c['cost']):
             return None
         return 'check_lkh %s %s %s' % (zll(c['cost']), nl(c['path']), nl(impl['paths'][0]))
     if c['op'] == 'kmedoids':
